@@ -11,6 +11,7 @@ import (
 	apierrors "k8s.io/apimachinery/pkg/api/errors"
 	"k8s.io/apimachinery/pkg/runtime/schema"
 	"k8s.io/apimachinery/pkg/types"
+	"k8s.io/apimachinery/pkg/util/intstr"
 	"sigs.k8s.io/controller-runtime/pkg/client"
 
 	"github.com/openkruise/rollouts/api/v1beta1"
@@ -64,6 +65,11 @@ type Run struct {
 	TimedWaits     int
 	Trace          []string
 	KeepTrace      bool
+	// RecordCallClasses makes the run remember, for every controller call since the release started, its class
+	// "<actor> <verb> <kind> @ <rollout phase/reason/cleanup task> | <batchrelease phase>" (C06 samples one read fault per class).
+	RecordCallClasses bool
+	CallClasses       []string
+	phaseTag          string
 	// BeforeUser, if set, runs before every user action (the concurrent scheduler lets reconciles in flight finish).
 	BeforeUser func()
 
@@ -130,6 +136,9 @@ func (r *Run) installHooks() {
 			return nil
 		}
 		r.ctrlCalls++
+		if r.RecordCallClasses {
+			r.CallClasses = append(r.CallClasses, c.Actor+" "+c.Verb+" "+c.Key.Kind+" @ "+r.phaseTag)
+		}
 		isWrite := c.Verb != "get" && c.Verb != "list"
 		if isWrite {
 			r.ctrlWriteCalls++
@@ -172,6 +181,32 @@ func (r *Run) installHooks() {
 		}
 		return nil
 	}
+	st.OnWrite = append(st.OnWrite, func(w *simapi.Write, v *simapi.View) {
+		if !r.RecordCallClasses || (w.Key.Kind != "Rollout" && w.Key.Kind != "BatchRelease") {
+			return
+		}
+		ro := v.Get("Rollout", r.S.NS, r.S.RolloutName())
+		br := v.Get("BatchRelease", r.S.NS, r.S.RolloutName())
+		tag := "gone"
+		if ro != nil {
+			reason := ""
+			for _, c := range simapi.List(ro, "status.conditions") {
+				if simapi.Str(c, "type") == "Progressing" {
+					reason = simapi.Str(c, "reason")
+				}
+			}
+			fin := simapi.Str(ro, "status.canaryStatus.finalisingStep") + simapi.Str(ro, "status.blueGreenStatus.finalisingStep")
+			state := simapi.Str(ro, "status.canaryStatus.currentStepState") + simapi.Str(ro, "status.blueGreenStatus.currentStepState")
+			tag = simapi.Str(ro, "status.phase") + "/" + reason + "/" + state + "/" + fin
+		}
+		if br != nil {
+			tag += " | " + simapi.Str(br, "status.phase") + "/" + simapi.Str(br, "status.canaryStatus.batchState")
+			if simapi.Deleting(br) {
+				tag += "/deleting"
+			}
+		}
+		r.phaseTag = tag
+	})
 	st.AfterCommit = func(w *simapi.Write) {
 		if !r.armed || !isControllerActor(w.Actor) {
 			return
@@ -347,6 +382,10 @@ func (r *Run) checkTriggers() {
 			hit = ro.Status.Phase == v1beta1.RolloutPhaseProgressing && fs != "" && fs != string(v1beta1.FinalisingStepTypeEnd) && (e.AtFinalising == "*" || e.AtFinalising == fs)
 		} else {
 			hit = inRolling && int(ss.CurrentStepIndex) == e.AtStep && string(ss.CurrentStepState) == e.AtState
+			if hit && e.AtBRState != "" {
+				br := r.W.Store.Snapshot().Get("BatchRelease", r.S.NS, r.S.RolloutName())
+				hit = br != nil && simapi.Str(br, "status.canaryStatus.batchState") == e.AtBRState && int(simapi.IntD(br, "status.canaryStatus.currentBatch", -1)) == e.AtStep-1
+			}
 		}
 		if hit {
 			e.fired = true
@@ -485,7 +524,7 @@ func (r *Run) doUser(a string) {
 	case "restart":
 		w.Restart()
 	case "noop":
-	case "plan-drop-last", "plan-add-step", "plan-bump":
+	case "plan-drop-last", "plan-add-step", "plan-bump", "plan-raise":
 		ro := &v1beta1.Rollout{}
 		if err = user.Get(c, key, ro); err != nil {
 			break
@@ -512,6 +551,41 @@ func (r *Run) doUser(a string) {
 			// change the pause of the first step and the traffic of the last one: a plan edit that keeps the step count
 			d := int32(0)
 			(*steps)[0].Pause.Duration = &d
+		case "plan-raise":
+			// mid-release edit: the current step (and the later ones, to keep the plan non-decreasing) asks for more pods
+			k := 0
+			if ss := ro.Status.GetSubStatus(); ss != nil && ss.CurrentStepIndex >= 1 {
+				k = int(ss.CurrentStepIndex) - 1
+			}
+			if k >= len(*steps) {
+				break
+			}
+			raise := func(v *intstr.IntOrString) *intstr.IntOrString {
+				if v == nil {
+					return v
+				}
+				if v.Type == intstr.String {
+					var p int
+					fmt.Sscanf(v.StrVal, "%d%%", &p)
+					p += 25
+					if p > 100 {
+						p = 100
+					}
+					n := intstr.FromString(fmt.Sprintf("%d%%", p))
+					return &n
+				}
+				n := intstr.FromInt(v.IntValue() + 2)
+				return &n
+			}
+			nv := raise((*steps)[k].Replicas)
+			(*steps)[k].Replicas = nv
+			for j := k + 1; j < len(*steps); j++ {
+				a, _ := intstr.GetScaledValueFromIntOrPercent((*steps)[j].Replicas, 1000, true)
+				b, _ := intstr.GetScaledValueFromIntOrPercent(nv, 1000, true)
+				if (*steps)[j].Replicas != nil && nv != nil && (*steps)[j].Replicas.Type == nv.Type && a < b {
+					(*steps)[j].Replicas = nv
+				}
+			}
 		}
 		err = user.Update(c, ro)
 	}
